@@ -197,7 +197,8 @@ def witness_scope_creation_guard(prog, fn: ast.AST) -> bool:
     appends = [n for n in cfg.nodes if n.kind == "stmt" and isinstance(n.ast, ast.Expr) and isinstance(n.ast.value, ast.Call)
                and norm(n.ast.value.func) == f"{layers}.append"]
     in_arm = [a for a in appends if cfg.all_paths_pass(a, cut_edges=e1) and cfg.all_paths_pass(a, cut_edges=e2)]
-    if len(in_arm) != 1 or not cfg.all_paths_pass(muts[0], cut_nodes=in_arm):
+    # the append and the trivia move belong to the same arm, in either order
+    if len(in_arm) != 1 or not (cfg.all_paths_pass(muts[0], cut_nodes=in_arm) or cfg.postdominated_by(muts[0], in_arm)):
         return False
     return True
 
@@ -342,7 +343,11 @@ class Reviewed:
 
     def __call__(self, func: str, mut_text: str, raise_text: str) -> bool:
         for fk, mt, rt, reason, wit in INFEASIBLE_PAIRS:
-            if fk == func and mt == mut_text and raise_text.startswith(rt):
+            # a raising *call* is identified by its callee (how the arguments are spelled does not matter; the witness
+            # re-checks the situation on the current tree)
+            same_call = not rt.startswith("raise") and "(" in rt and rt.split("(", 1)[0].isidentifier() \
+                and raise_text.split("(", 1)[0] == rt.split("(", 1)[0]
+            if fk == func and mt == mut_text and (raise_text.startswith(rt) or same_call):
                 key = (fk, wit.__name__)
                 if key not in self.cache:
                     f = self.prog.funcs.get(fk)
